@@ -260,6 +260,12 @@ def main(tier):
         t = "JSIGHT 0.3\n" + ks + body
         cases.append(rel.case("xks%d" % k, t))
         rej["xks%d" % k] = ("unused_property_key_shortcut", {"doc": ["ks%d" % k]}, t)
+    # a JSON-RPC URL is a path too: an empty {} or a {name} written twice is rejected
+    for k, p in enumerate(["/zrp/{v}/rpc/{v}", "/zrp/{}/rpc", "/zrp/{a}/{b}/{a}"]):
+        for proto, tail in (("rpc", "  Protocol json-rpc-2.0\n  Method zm\n    Result\n    {}\n"), ("http", "  GET\n    200 any\n")):
+            t = "JSIGHT 0.3\nURL %s\n%s" % (p, tail)
+            cases.append(rel.case("xrp%d%s" % (k, proto), t))
+            rej["xrp%d%s" % (k, proto)] = ("faulty_parameters_in_%s_url" % proto, {"doc": ["rp%d%s" % (k, proto)]}, t)
     # one file with a method and its Path directive included under two (three) URL blocks: each inclusion binds the
     # parameter of ITS path
     item = '  GET\n    Path\n    {\n      "id": 1\n    }\n    200 any\n'
